@@ -30,6 +30,9 @@ def run(ctx):
         ctx.guard("C13", "trigger", lambda: engine.trigger_and_levels(ctx, prog))
         ctx.guard("C13", "digest", lambda: engine.digest_sources(ctx, prog))
         ctx.guard("C13", "digest-last", lambda: piece.digest_last_piece(ctx, prog))
+        ctx.guard("C13", "init", lambda: piece.initial_state(ctx, prog))
+        ctx.guard("C13", "reset", lambda: gen.reset_equals_new(ctx, prog))
+        ctx.guard("C13", "reset-side", lambda: gen.reset_side_conditions(ctx, prog))
         if not c.startswith("unsafe"):
             # (the pointer engine of `unsafe` is tied to the index engine by SA-ENGINEMAP under C14)
             ctx.guard("C13", "piece", lambda: piece.piece_effects(ctx, prog))
